@@ -114,6 +114,16 @@ func canon(kk string, i int) int {
 		if i == 1 || i == 12 {
 			return 0
 		}
+	case "interface_wide":
+		switch i % 7 {
+		case 0: // bool keys: true (even i) is index 0, false (odd i) is index 7
+			if i%2 == 0 {
+				return 0
+			}
+			return 7
+		case 1: // u8(i/7 % 256): indices with equal (i/7)%256 are one key
+			return (i/7%256)*7 + 1
+		}
 	}
 	return i
 }
@@ -458,7 +468,7 @@ func (e *Engine) execute(d *driver, ops []op, pool int, mode allocsim.Mode, t *t
 				return oc, host, ""
 			}
 			// resynchronise the model from the implementation for the keys this op may have touched
-			for k := 0; k < pool+8 && k < poolMax; k++ {
+			for k := 0; k < pool+64 && k < poolMax; k++ { // up to 8 chained inserts, each at most 7 further
 				r, _ := call("get", uint64(o.slot), uint64(k))
 				ck2 := canon(kk, k)
 				if int64(r) == -1 {
